@@ -324,6 +324,7 @@ func (y *sys) callRelease(id int) {
 	var rerr error
 	y.within("Release", func() { rerr = y.s.Release(y.real[id]) })
 	y.t.Event("Ret", rt.M{"err": errStr(rerr)})
+	y.kick()
 }
 
 func (y *sys) advance(d int) bool {
@@ -405,8 +406,10 @@ func (y *sys) settle() {
 		y.waitFor("executions to finish", func() bool { return y.nStart == y.nCkpt }, nil)
 		if !y.selfQuiescent() {
 			if time.Now().After(end) {
-				rt.Fatalf("c17: scheduler still has due work after %v (When=%d now=%d)", deadline, rel(y.s.When()), rel(y.mock.Now()))
+				y.fatal("scheduler still has due work after %v (When=%d now=%d chanlen=%d)", deadline, rel(y.s.When()), rel(y.mock.Now()), y.chanLen())
 			}
+			// on a real clock a timer that is due fires by itself; the mock needs an Add (whoever armed it)
+			y.kick()
 			time.Sleep(200 * time.Microsecond)
 			continue
 		}
